@@ -16,7 +16,8 @@ wt = '/tmp/benign_run_%s_%d' % (tag, os.getpid())
 subprocess.check_call(['git', '-C', '/repo', 'worktree', 'add', '-q', '--detach', wt, 'HEAD'])
 res = {}
 try:
-    subprocess.check_call(['git', '-C', wt, 'apply', os.path.join(dst, 'patch.diff')])
+    if subprocess.call(['git', '-C', wt, 'apply', os.path.join(dst, 'patch.diff')]) != 0:
+        subprocess.check_call(['git', '-C', wt, 'apply', '--3way', os.path.join(dst, 'patch.diff')])
 
     def one(c):
         r = subprocess.run(['/verif/bin/check', c], env=dict(os.environ, VERIF_REPO=wt), stdout=subprocess.PIPE, stderr=subprocess.STDOUT, text=True)
